@@ -359,6 +359,11 @@ pub struct Job {
     /// Explicit seeds instead of start/stride/count.
     #[serde(default)]
     pub seeds: Vec<u64>,
+    /// minimise: the (oracle, signature) to preserve (default: the first violation of the file)
+    #[serde(default)]
+    pub target_oracle: String,
+    #[serde(default)]
+    pub target_signature: String,
 }
 
 #[derive(Serialize, Deserialize, Clone)]
@@ -620,13 +625,25 @@ fn minimise<E: Engine>(job: &Job) {
     let started = Instant::now();
     let budget = if job.budget_s > 0.0 { job.budget_s } else { 60.0 };
     let rf = load_replay::<E>(&job.file);
-    let target = rf.violations.first().cloned().expect("replay file has a violation");
+    let target = rf
+        .violations
+        .iter()
+        .find(|v| {
+            !job.target_oracle.is_empty()
+                && v.oracle == job.target_oracle
+                && (job.target_signature.is_empty() || v.signature == job.target_signature)
+        })
+        .or_else(|| rf.violations.first())
+        .cloned()
+        .expect("replay file has a violation");
     let still_fails = |sc: &E::Scenario| -> Option<Outcome> {
         match run_guarded::<E>(sc) {
             Ok(o)
-                if o.violations
-                    .iter()
-                    .any(|v| v.property == target.property && v.oracle == target.oracle) =>
+                if o.violations.iter().any(|v| {
+                    v.property == target.property
+                        && v.oracle == target.oracle
+                        && (job.target_signature.is_empty() || v.signature == target.signature)
+                }) =>
             {
                 Some(o)
             }
